@@ -130,7 +130,7 @@ PeerList::insert_available(const void* al) {
     auto addr_str = sa_addr_str(&addr.sa);
     auto port = sa_port(&addr.sa);
 
-    if (!socket_address_key::is_comparable_sockaddr(&addr.sa) || port == 0) {
+    if (!socket_address_key::is_comparable_sockaddr(&addr.sa) || port == 0 || sa_is_any(&addr.sa)) {
       invalid++;
       LT_LOG_ADDRESS("adding available address: skipped invalid : %s", sa_pretty_str(&addr.sa).c_str());
       continue;
